@@ -147,7 +147,7 @@ def emit (j : Job) (b r : Nat) (p : Proc) (outs : List (Elem Nat)) : Proc :=
     pending := outs.flatMap (sendsOf j b r p.clock)
     clock := p.clock + outs.length
     log := p.log ++ outs
-    published := p.published + outs.count .term }
+    published := p.published + outs.countP Elem.isTerm }
 
 /-- One scheduler slot given to replica `(b, r)`. A blocked or finished replica does nothing. -/
 def step (j : Job) (s : State) (b r : Nat) : State :=
